@@ -152,8 +152,102 @@ def insert_passes(src, seed=0, make=ast.Pass):
                 if i >= start and rng.random() < 0.5:
                     new.append(make())
                 new.append(st)
-            if rng.random() < 0.3 and not isinstance(blk[-1], (ast.Return, ast.Raise, ast.Continue, ast.Break)):
+            if rng.random() < 0.3 and not _leaves(blk):
                 new.append(make())
+            setattr(n, fld, new)
+    ast.fix_missing_locations(tree)
+    return ast.unparse(tree) + "\n"
+
+
+def swap_independent(src, seed=0):
+    """Swap adjacent simple statements that cannot affect each other: neither
+    contains a call, a yield or an attribute/subscript store, and neither
+    writes a name the other mentions."""
+    rng = random.Random(seed + 29)
+    tree = ast.parse(src)
+
+    def pure(s):
+        if not isinstance(s, (ast.Assign, ast.AnnAssign)):
+            return False
+        tg = s.targets if isinstance(s, ast.Assign) else [s.target]
+        if not all(isinstance(t, ast.Name) for t in tg):
+            return False
+        return not any(isinstance(x, (ast.Call, ast.Yield, ast.YieldFrom, ast.Await, ast.NamedExpr,
+                                      ast.Subscript, ast.Attribute, ast.Lambda, ast.ListComp,
+                                      ast.SetComp, ast.DictComp, ast.GeneratorExp))
+                       for x in ast.walk(s))
+
+    def ids(s):
+        return {x.id for x in ast.walk(s) if isinstance(x, ast.Name)}
+
+    def writes(s):
+        return {x.id for x in ast.walk(s) if isinstance(x, ast.Name) and isinstance(x.ctx, ast.Store)}
+
+    for n in ast.walk(tree):
+        for fld in ("body", "orelse", "finalbody"):
+            blk = getattr(n, fld, None)
+            if not isinstance(blk, list) or isinstance(n, (ast.Module, ast.ClassDef)):
+                continue
+            i = 0
+            while i + 1 < len(blk):
+                a, b = blk[i], blk[i + 1]
+                if pure(a) and pure(b) and not (writes(a) & ids(b)) and not (writes(b) & ids(a)) \
+                        and rng.random() < 0.8:
+                    blk[i], blk[i + 1] = b, a
+                    i += 2
+                else:
+                    i += 1
+    ast.fix_missing_locations(tree)
+    return ast.unparse(tree) + "\n"
+
+
+def _leaves(block):
+    if not block:
+        return False
+    last = block[-1]
+    if isinstance(last, (ast.Return, ast.Raise, ast.Continue, ast.Break)):
+        return True
+    if isinstance(last, ast.If):
+        return _leaves(last.body) and _leaves(last.orelse)
+    return False
+
+
+def else_flip(src, seed=0):
+    """`if c: <leaves> else: B`  <->  `if c: <leaves>` followed by B.
+    Where the else is present it is dissolved; where a leaving `if` without
+    else is followed by more statements, those are moved into an else."""
+    rng = random.Random(seed + 31)
+    tree = ast.parse(src)
+    for n in ast.walk(tree):
+        for fld in ("body", "orelse", "finalbody"):
+            blk = getattr(n, fld, None)
+            if not isinstance(blk, list) or not blk or isinstance(n, (ast.Module, ast.ClassDef)):
+                continue
+            if not all(isinstance(x, ast.stmt) for x in blk):
+                continue
+            new = []
+            i = 0
+            while i < len(blk):
+                st = blk[i]
+                if isinstance(st, ast.If) and _leaves(st.body):
+                    is_elif = len(st.orelse) == 1 and isinstance(st.orelse[0], ast.If)
+                    if st.orelse and not is_elif:
+                        # dissolve the else
+                        rest = st.orelse
+                        st.orelse = []
+                        new.append(st)
+                        new.extend(rest)
+                        i += 1
+                        continue
+                    if not st.orelse and i + 1 < len(blk) and rng.random() < 0.7 \
+                            and not any(isinstance(x, (ast.FunctionDef, ast.ClassDef))
+                                        for x in blk[i + 1:]):
+                        st.orelse = blk[i + 1:]
+                        new.append(st)
+                        i = len(blk)
+                        continue
+                new.append(st)
+                i += 1
             setattr(n, fld, new)
     ast.fix_missing_locations(tree)
     return ast.unparse(tree) + "\n"
@@ -165,4 +259,6 @@ TWINS = {
     "alpha": lambda src, seed: alpha_rename(src, seed),
     "passes": lambda src, seed: insert_passes(src, seed),
     "noise": lambda src, seed: insert_noise(src, seed),
+    "swap": lambda src, seed: swap_independent(src, seed),
+    "elseflip": lambda src, seed: else_flip(src, seed),
 }
